@@ -299,6 +299,28 @@ claim('C34',
       'TLA+ Expr.tla trees + TLC + generated-source replay into func-API and jax components', '6/C34, 7')
 
 
+claim('C17',
+      'Recorder.tla models the recording-frame tree, the recorder file and the reader\'s hierarchy queries transcribed on real coordinate '
+      'strings; TLC checks on every bounded run tree (RecorderMC) that the flat listings equal execution order and exact descendants, and '
+      'refutes the off-by-one window and two transcribed reader defects.  Bound to the code by replaying the observed push/pop/record '
+      'stream of real generated runs through the spec\'s actions (RecorderJudge) and judging every reader answer and every case\'s '
+      'variable set in TLA+; values are compared with an independent live snapshot.',
+      'Serial SqliteRecorder/reader only; no discrete variables, aliases, record_derivatives, line-search recorders or late attachment; '
+      'iteration numbers of driver/solver frames are taken from the events, only system counters are predicted.',
+      'TLA+/TLC: exhaustive bounded run trees (RecorderMC) + trace validation of observed recordings and reader answers (RecorderJudge); '
+      'selection logic in TLA+ with Python\'s fnmatch table; independent snapshot for values', '6/C17')
+
+claim('C19',
+      'LoadCase.tla models load_case / get_val / run_model over the store of sources and the input vector: the laws Restored, '
+      'FinalConsistent, OthersKept and Reproduced are checked on a small instance and three non-theorems refuted.  Recorded cases of '
+      'generated models (problem, driver, system and solver recorders; final and mid-solve) are loaded into fresh Problems in three '
+      'phases; the harness compares floats, TLA+ decides which law applies (consistency, coverage of the independents, finality) and '
+      'judges every variable.',
+      'Sampled models and cases; no solver scaling in the loaded models; promoted-name reads judged only where no src_indices lie '
+      'between the promoted node and the input.',
+      'TLA+/TLC: law checking on an abstract instance + judging of observed load_case executions (LoadCase.tla)', '6/C19')
+
+
 def main():
     checks = []
     for pid in ALL:
